@@ -122,6 +122,8 @@ func handle(p []string) (res string) {
 		return opClone(p[1:], true, false)
 	case "clonep":
 		return opClone(p[1:], false, true)
+	case "clonex":
+		return opCloneX(p[1:])
 	case "pump":
 		return opPump(p[1:])
 	case "wfault":
@@ -131,7 +133,11 @@ func handle(p []string) (res string) {
 	case "rdops":
 		return opRdOps(p[1:])
 	case "sched":
-		return opSched(p[1:])
+		return opSched(p[1:], "")
+	case "schedb":
+		return opSched(p[1:], "bufio")
+	case "schedk":
+		return opSched(p[1:], "bufio4k")
 	}
 	return "bad-op"
 }
